@@ -250,6 +250,9 @@ impl ServerInner {
                 // Signal is non-blocking; we wait for thread to stop later.
                 self.waker_queue.wake(WakerInterest::Stop);
 
+                #[cfg(actix_net_verif)]
+                crate::verif::stop_gap();
+
                 // send stop signal to workers
                 let workers_stop = self
                     .worker_handles
